@@ -22,8 +22,9 @@ Open Scope Z_scope.
 RULE = ("files: 1..400 residues (three size classes), residue sizes 1..12, 2..6 residue kinds laid out in blocks / "
         "alternating / random order, kinds sharing a name with different sizes, kinds sharing name and size with "
         "different atom names, kinds sharing atom names and size under different names, residue names starting with digits (the repaired D9 shape), numbering sequential / "
-        "constant / changing every 2-3 residues / wrapping at 100000 / random, with and without velocities, 3..5 "
-        "decimals, 3- and 9-number boxes; histories of index (in and out of range, negative, -1), slice (None/negative/"
+        "constant / changing every 2-3 residues / wrapping at 100000 / random, with and without velocities (atoms at rest "
+        "written 0.0000 0.0000 0.0000 - single atoms, whole residues, one kind, the whole file -, one or two zero "
+        "components, -0.0000; atoms exactly at the origin, zero and -0.000 coordinates), 3..5 decimals, 3- and 9-number boxes; histories of index (in and out of range, negative, -1), slice (None/negative/"
         "out-of-range bounds, steps +-1..3 and 0), partial fresh iteration, live iterators stepped between other accesses. "
         "A case counts as non-trivial when it is distinct, the file has >= 2 residues and the history >= 1 operation.")
 
@@ -114,11 +115,45 @@ LAYOUTS = ["blocks", "alternating", "random", "aba"]
 NUMBERINGS = ["sequential", "constant", "every2", "every3", "wrap", "random", "blockwise"]
 
 
+RESTS = ["none", "none", "some_residues", "one_kind", "all"]
+
+
+def draw_pv(rs, dec, vel, frozen, lo=-9.0, hi=99.0, plain=False):
+    """position and velocity of one atom.  Besides generic values: atoms exactly at the origin, single zero
+    coordinates, -0.000; atoms at rest (velocity written 0.0000 0.0000 0.0000 - frozen groups, walls), one or two
+    zero velocity components, -0.0000.  `velocity present and zero` is a different record from `no velocity`."""
+    pos = [float(x) for x in np.round(rs.uniform(lo, hi, size=3), dec)]
+    c = 99 if plain else rs.randint(40)
+    if c == 0:
+        pos = [0.0, 0.0, 0.0]
+    elif c == 1:
+        pos[rs.randint(3)] = 0.0
+    elif c == 2:
+        pos[rs.randint(3)] = -0.0
+    v = None
+    if vel:
+        v = [float(x) for x in np.round(rs.uniform(-9.0, 9.0, size=3), dec + 1)]
+        c = 99 if plain else rs.randint(20)
+        if frozen or c < 2:
+            v = [0.0, 0.0, 0.0]
+        elif c < 4:
+            v[rs.randint(3)] = 0.0
+        elif c == 4:
+            v[rs.randint(3)] = -0.0
+        elif c == 5:
+            v = [-0.0, 0.0, -0.0]
+        elif c == 6:
+            j = rs.randint(3)
+            v = [x if k == j else 0.0 for k, x in enumerate(v)]
+    return tuple(pos), (tuple(v) if v is not None else None)
+
+
 def gen_file(rs, nres):
     flags = FLAGSETS[rs.randint(len(FLAGSETS))]
     layout = LAYOUTS[rs.randint(len(LAYOUTS))]
     numbering = NUMBERINGS[rs.randint(len(NUMBERINGS))]
     vel = bool(rs.randint(2))
+    rest = RESTS[rs.randint(len(RESTS))] if vel else "none"
     dec = [3, 3, 3, 4, 5][rs.randint(5)]
     kinds = gen_kinds(rs, flags)
     nk = len(kinds)
@@ -154,15 +189,19 @@ def gen_file(rs, nres):
             resid = int(rs.randint(0, 100000)) if rs.randint(3) else resid
         elif numbering == "blockwise":
             resid = 1 + kd
+        frozen = vel and (rest == "all" or (rest == "some_residues" and rs.randint(4) == 0) or
+                          (rest == "one_kind" and kd == 0))
         for a in an:
-            while True:
-                pos = tuple(float(x) for x in np.round(rs.uniform(-9.0, 99.0, size=3), dec))
-                v = tuple(float(x) for x in np.round(rs.uniform(-9.0, 9.0, size=3), dec + 1)) if vel else None
-                if (pos, v) not in seen:
-                    seen.add((pos, v))
-                    break
             atomid = (len(recs) + 1) if numbering != "constant" else 1 + (len(recs) % 3)
-            recs.append((resid % 100000, rn, a, atomid % 100000, pos, v))
+            tries = 0
+            while True:
+                pos, v = draw_pv(rs, dec, vel, frozen, plain=tries > 3)
+                rec = (resid % 100000, rn, a, atomid % 100000, pos, v)
+                tries += 1
+                if rec not in seen:        # records must be pairwise different (they are their own identifiers in K)
+                    seen.add(rec)
+                    break
+            recs.append(rec)
     if "digits" in flags and nres >= 2 and rs.randint(2):
         # the D9 shape somewhere in the file: (1, "2AB") followed by (12, "AB")
         at = rs.randint(0, len(recs) + 1)
@@ -170,19 +209,20 @@ def gen_file(rs, nres):
         for rid, rn, names in ((1, "2AB", ("A1", "A2")), (12, "AB", ("B1", "B2", "B3"))):
             for a in names:
                 while True:
-                    pos = tuple(float(x) for x in np.round(rs.uniform(100.0, 120.0, size=3), dec))
-                    v = tuple(float(x) for x in np.round(rs.uniform(-9.0, 9.0, size=3), dec + 1)) if vel else None
-                    if (pos, v) not in seen:
-                        seen.add((pos, v))
+                    pos, v = draw_pv(rs, dec, vel, False, lo=100.0, hi=120.0, plain=True)
+                    rec = (rid, rn, a, 1, pos, v)
+                    if rec not in seen:
+                        seen.add(rec)
                         break
-                ins.append((rid, rn, a, 1, pos, v))
+                ins.append(rec)
         recs = recs[:at] + ins + recs[at:]
     box = (tuple(float(x) for x in np.round(rs.uniform(1, 50, size=3), 5)) if rs.randint(3) else
            tuple(float(x) for x in np.round(rs.uniform(-5, 50, size=9), 5)))
     title = ["generated", "Title with  spaces, t= 1.0", "x", "  leading blanks"][rs.randint(4)]
     path = molgen.write_gro(molgen.fresh_path("gro", "c12_"), recs, box=box, title=title, dec=dec)
     text = open(path).read()
-    meta = {"nres_requested": nres, "flags": list(flags), "layout": layout, "numbering": numbering, "vel": vel, "dec": dec}
+    meta = {"nres_requested": nres, "flags": list(flags), "layout": layout, "numbering": numbering, "vel": vel, "rest": rest,
+            "dec": dec}
     return path, text, meta
 
 
@@ -342,7 +382,8 @@ def oracle_case(text, ops, path=None):
         flat = [a for r in it_after for a in r]
         if flat != ref["records"]:
             bad.append("concatenation of the residues iterated on %s differs from the file's records "
-                       "(%d atoms iterated, %d in the file)" % (label, len(flat), len(ref["records"])))
+                       "(%d atoms iterated, %d in the file)%s" % (label, len(flat), len(ref["records"]),
+                                                                 first_difference(flat, ref["records"])))
             break
     starts, p = [], 0
     for r in it_after:
@@ -397,6 +438,18 @@ def oracle_case(text, ops, path=None):
             bad.append("operation %d %s: returned %s, the iterated residue(s) say otherwise" %
                        (k, op, kind if kind != "err" else "error " + str(val)))
     return bad, (first_bad if first_bad is not None else len(ops))
+
+
+FIELDS = ("residue number", "residue name", "atom name", "atom number", "position", "velocity")
+
+
+def first_difference(got, want):
+    for k, (a, b) in enumerate(zip(got, want)):
+        if a != b:
+            for name, x, y in zip(FIELDS, a, b):
+                if x != y:
+                    return "; first at atom %d: %s %r, the file says %r" % (k, name, x, y)
+    return ""
 
 
 def check_and_report(ctx, text, ops, meta, path=None):
@@ -497,6 +550,35 @@ CORPUS = [
 ]
 
 
+def _frozen_demo():
+    """the witness of seeded change C12-6: a box WITH velocities in which residues 2 and 3 and one atom of residue 7
+    are at rest (velocity columns 0.0000 0.0000 0.0000); other atoms have a zero in one component only"""
+    kinds = [("SOL", ["OW", "HW1", "HW2"]), ("NA", ["NA"]), ("LIG", ["C1", "C2", "C3", "C4", "C5"])]
+    layout = [0, 0, 1, 2, 0, 1, 1, 2, 0, 2]
+    recs, atomid = [], 1
+    for ri, kd in enumerate(layout):
+        rn, names = kinds[kd]
+        for ai, name in enumerate(names):
+            pos = (round(atomid * 0.001, 3), round(atomid * 0.01, 3), round(atomid * 0.1, 3))
+            if ri in (2, 3) or (ri, ai) == (7, 1):
+                vel = (0.0, 0.0, 0.0)
+            elif atomid % 4 == 0:
+                vel = (0.0, 0.25, -0.5)
+            else:
+                vel = (round(-pos[0], 4), round(0.5 - pos[1], 4), round(pos[2] / 10, 4))
+            recs.append((ri + 1, rn, name, atomid, pos, vel))
+            atomid += 1
+    return recs
+
+
+CORPUS.append(("C12-6 atoms at rest keep their velocity", _frozen_demo(),
+               [["index", 2], ["index", -7], ["slice", 1, 8, 2], ["prefix", 4], ["index", 7], ["slice", None, None, -1]]))
+# every atom at rest and at the origin except for its number: 'velocity 0 0 0' is not 'no velocity'
+CORPUS.append(("all at rest, at the origin", [(1 + k // 2, "WAL", "W%d" % (k % 2), k + 1, (0.0, 0.0, -0.0), (0.0, -0.0, 0.0))
+                                               for k in range(6)],
+               [["index", -1], ["slice", None, None, None], ["index", 0]]))
+
+
 def corpus(ctx):
     S = ctx.cov["S"]
     S["corpus"] = 0
@@ -541,6 +623,15 @@ def build_cases(ctx, rs, nfiles, maxops, with_corpus=True):
         for fl_ in meta.get("flags", []):
             _hist_add(hist, "flag=" + fl_)
         _hist_add(hist, "velocities" if meta.get("vel") else "no_velocities")
+        if meta.get("vel"):
+            _hist_add(hist, "rest=" + str(meta.get("rest")))
+        recs_ = raw_parse(text)["records"]
+        nrest = sum(1 for r in recs_ if r[5] is not None and not any(r[5]))
+        _hist_add(hist, "atoms_at_rest", nrest)
+        _hist_add(hist, "atoms_one_or_two_zero_velocity_components", sum(1 for r in recs_ if r[5] is not None and any(r[5]) and not all(r[5])))
+        _hist_add(hist, "atoms_at_origin", sum(1 for r in recs_ if not any(r[4])))
+        if nrest:
+            _hist_add(hist, "files_with_atoms_at_rest")
         for op in ops:
             _hist_add(hist, "op=" + op[0])
         for kind, val, _ in h:
